@@ -308,14 +308,14 @@ func (x *Exec) harnessCall(s *State, f *Frame, ins *ssa.Call, fn *ssa.Function, 
 		if !ok || n < 0 {
 			unsupported("vNondetString length must be concrete")
 		}
-		return done(Str{x.newBytes(name, n)})
+		return done(Str{B: x.newBytes(name, n)})
 	case "vNondetBytes":
 		name := x.strArg(args[0])
 		n, ok := constInt(args[1])
 		if !ok || n < 0 {
 			unsupported("vNondetBytes length must be concrete")
 		}
-		return done(s.newByteSlice(Str{x.newBytes(name, n)}))
+		return done(s.newByteSlice(Str{B: x.newBytes(name, n)}))
 	case "vNondetByte":
 		return done(x.newBytes(x.strArg(args[0]), 1)[0])
 	case "vNondetBool":
